@@ -72,7 +72,8 @@ def gen_model(rnd, tier='quick'):
         d0 = REAL(1969, 1, 1) + td(days=rnd.randint(0, 36400))
         t = {'id': k, 'name': rtext(rnd), 'resource': rtext(rnd) if rnd.random() < 0.6 else None,
              'start': d0 if rnd.random() < 0.5 else None, 'end': d0 + td(days=rnd.randint(0, 30)) if rnd.random() < 0.4 else None,
-             'estimate': rnd.choice([None, 0, 8, 2.5, 0.05, 12.75, 100]), 'spent': rnd.choice([None, None, 0, 1, 0.1, 3.25]),
+             'estimate': rnd.choice([None, 0, 8, 2.5, 0.05, 12.75, 100, 1 / 3, 0.1 + 0.2, 1e-7, 123456.789012345, 2 / 3]),
+             'spent': rnd.choice([None, None, 0, 1, 0.1, 3.25, 1 / 7, 1e-9]),
              'milestone': rnd.random() < 0.2, 'min_start': max(d0 - td(days=3), REAL(1969, 1, 1)) if rnd.random() < 0.25 else None,
              'parent': None, 'custom': {}}
         for c in customs:
@@ -336,7 +337,9 @@ def judge_handwritten(model, rnd, acc, wk, opts=None):
     if opts is None:
         opts = {'eol': rnd.choice(['\n', '\r\n']), 'bom': rnd.random() < 0.5, 'quoting': rnd.choice(['minimal', 'all']),
                 'custom_order': rnd.choice(['sorted', 'reversed']), 'no_final_eol': rnd.random() < 0.2,
-                'false_text': rnd.choice(['False', '', 'False'])}
+                'false_text': rnd.choice(['False', '', 'False']),
+                # the file is UTF-8 whatever the caller calls that encoding
+                'read_encoding': rnd.choice([None, None, 'utf-8', 'UTF-8', 'utf8', 'utf_8', 'U8', 'UTF8', 'utf-8-sig'])}
     # text with a bare CR/LF inside a field needs an eol-independent reader; keep LF files free of lone CR ambiguity
     customs = sorted({c for t in model['tasks'] for c in t['custom']})
     data = ref_write(model, kept, opts)
@@ -350,7 +353,7 @@ def judge_handwritten(model, rnd, acc, wk, opts=None):
     acc.sig('hand', opts['eol'] == '\n', opts['bom'], opts['quoting'], opts['custom_order'], opts['no_final_eol'], min(len(a), 4))
     case = {'kind': 'hand', 'model': model, 'opts': opts}
     try:
-        r = read_csv(p)
+        r = read_csv(p, encoding=opts['read_encoding']) if opts.get('read_encoding') else read_csv(p)
     except Exception as e:
         acc.violation(f'C13/hand-written-read-raised-{type(e).__name__}' + ('/bom' if opts['bom'] else ''), f'read_csv raised {type(e).__name__}: {str(e)[:120]} (options {opts})', case)
         return
